@@ -12,8 +12,10 @@
        (`except ChunkStoreError as err: return err`);
      - ChunkStoreVisFlagsWeights: flags chunks are fetched with errors=DATA_LOST (default value), the others with
        errors='placeholder'; _apply_data_lost ORs DATA_LOST where a placeholder came back;
-     - NpyFileChunkStore.put_chunk as a list of file-system operations [Creat tmp; Write tmp ..; (Ftruncate tmp);
-       Rename tmp final] interrupted after any prefix.
+     - NpyFileChunkStore.put_chunk as a state machine over the file-system operations [Creat tmp; Write tmp ..;
+       (Ftruncate tmp); Rename tmp final]: every call is answered by the environment (ok / process dies / error /
+       SHORT write that returns a count), and the writer's reaction to a short count (retry / ignore / check) is
+       translated from _write_chunk.
    Definitions only. *)
 From Coq Require Import ZArith List Bool String.
 From KV Require Import Base.Sx Base.Str Gen.Generated Model.Npy.
@@ -589,69 +591,161 @@ Definition put_ops (base : name) (writes : list bytes) (trunc : option nat) : li
 Definition new_content (writes : list bytes) (trunc : option nat) : bytes :=
   match trunc with Some n => firstn n (List.concat writes) | None => List.concat writes end.
 
-(* what can happen to a put: it completes; the process dies after k operations (optionally in the middle of
-   the next write, of which only [part] reached the file); operation k fails with low-level exception e (again
-   possibly after a partial write); or write k is SHORT: only [part] is written and the call returns normally *)
-Inductive fault := NoFault | Crash (k : nat) (part : bytes) | Fail (k : nat) (part : bytes) (e : exn)
-                 | Short (k : nat) (part : bytes).
+(* ---- the put as a state machine driven by the environment ----
+   Every system call the put issues is answered by the environment with one [event]:
+     EOk        the call does what it should;
+     EDie n     the process dies inside this call (a write has stored its first n bytes; other calls did nothing);
+     EErr e     the call fails with the low-level exception e and has no effect;
+     EShort n   a write(2) stores only the first n bytes of its buffer and RETURNS n (no exception): file-size
+                limit / quota / full disk reached inside the buffer, signal during a blocking write, the 2 GiB
+                cap of a single write.  (n >= length of the buffer, or a call that is not a write: same as EOk.)
+   The run of a put is determined by the list of answers (one per call actually issued; when the list is used up
+   every further call succeeds).  What the WRITER does with a short count is a property of the code, translated
+   from the source: *)
+Inductive wpolicy :=
+| PRetry                      (* io.BufferedWriter / stdio: re-issue the remainder until done or write(2) raises *)
+| PIgnore                     (* raw FileIO.write / os.write with the count thrown away: carry on *)
+| PCheck (need : option nat). (* raise OSError when fewer than [need] bytes (None: the whole buffer) were stored,
+                                 carry on otherwise *)
+Inductive event := EOk | EDie (n : nat) | EErr (e : exn) | EShort (n : nat).
 
-Definition partial_ops (ops : list fsop) (k : nat) (part : bytes) : list fsop :=
-  firstn k ops ++
-  match nth_error ops k, part with
-  | Some (Write n _), _ :: _ => [Write n part]
-  | _, _ => []
+Record wcfg := { short_policy : wpolicy;
+                 swallow_last_write_error : bool }.  (* np.save/ndarray.tofile: a failing final flush is ignored *)
+
+Definition is_rename_next (ops : list fsop) : bool :=
+  match ops with Rename _ _ :: _ => true | _ => false end.
+
+(* outcome for the caller (None = the caller never hears back: the process died) and the file system left behind *)
+Fixpoint exec (c : wcfg) (evs : list event) (ops : list fsop) (f : fs) {struct evs} : option (outcome unit) * fs :=
+  match evs with
+  | [] => (Some (Ret tt), run_ops ops f)
+  | ev :: evs' =>
+    match ops with
+    | [] => (match ev with EDie _ => None | _ => Some (Ret tt) end, f)   (* dies after the last call, before returning *)
+    | op :: ops' =>
+      match ev with
+      | EOk => exec c evs' ops' (apply_op f op)
+      | EDie n => (None, match op with Write nm bs => apply_op f (Write nm (firstn n bs)) | _ => f end)
+      | EErr e =>
+          match op with
+          | Write _ _ => if swallow_last_write_error c && is_rename_next ops'
+                         then exec c evs' ops' f else (Some (Raise e), f)
+          | _ => (Some (Raise e), f)
+          end
+      | EShort n =>
+          match op with
+          | Write nm bs =>
+              if Nat.ltb n (List.length bs) then
+                let f' := apply_op f (Write nm (firstn n bs)) in
+                match short_policy c with
+                | PRetry => exec c evs' (Write nm (skipn n bs) :: ops') f'
+                | PIgnore => exec c evs' ops' f'
+                | PCheck need =>
+                    if Nat.ltb n (match need with Some m => m | None => List.length bs end)
+                    then (Some (Raise B_OSError), f')
+                    else exec c evs' ops' f'
+                end
+              else exec c evs' ops' (apply_op f op)
+          | _ => exec c evs' ops' (apply_op f op)
+          end
+      end
+    end
   end.
 
-(* two facts about _write_chunk translated from the source:
+(* the calls the run issues, in order: (kind, requested byte count / length argument); kinds as in [of_fsop].
+   Same recursion as [exec]; only used to tie the machine to strace output call by call. *)
+Definition call_of (op : fsop) : Z * Z :=
+  match op with
+  | Creat _ => (0, 0)
+  | Write _ bs => (1, Z.of_nat (List.length bs))
+  | Ftruncate _ len => (2, Z.of_nat len)
+  | Rename _ _ => (3, 0)
+  end.
+Fixpoint exec_calls (c : wcfg) (evs : list event) (ops : list fsop) {struct evs} : list (Z * Z) :=
+  match evs with
+  | [] => map call_of ops
+  | ev :: evs' =>
+    match ops with
+    | [] => []
+    | op :: ops' =>
+      call_of op ::
+      match ev with
+      | EOk => exec_calls c evs' ops'
+      | EDie _ => []
+      | EErr _ =>
+          match op with
+          | Write _ _ => if swallow_last_write_error c && is_rename_next ops' then exec_calls c evs' ops' else []
+          | _ => []
+          end
+      | EShort n =>
+          match op with
+          | Write nm bs =>
+              if Nat.ltb n (List.length bs) then
+                match short_policy c with
+                | PRetry => exec_calls c evs' (Write nm (skipn n bs) :: ops')
+                | PIgnore => exec_calls c evs' ops'
+                | PCheck need =>
+                    if Nat.ltb n (match need with Some m => m | None => List.length bs end)
+                    then [] else exec_calls c evs' ops'
+                end
+              else exec_calls c evs' ops'
+          | _ => exec_calls c evs' ops'
+          end
+      end
+    end
+  end.
+
+(* facts about _write_chunk translated from the source:
    - the plain branch writes through np.save (ndarray.tofile ignores a failing final flush) or through a Python
      file object (which raises);
-   - the direct branch compares the byte count returned by os.write with the chunk size before ftruncate. *)
+   - what the plain branch does with a short count: "retry" (buffered file object / stdio), "ignore" (raw file
+     object, count discarded), "check" (count compared with the buffer length, OSError raised);
+   - the direct branch compares the byte count returned by its single os.write with the chunk size [size] (the
+     argument of the ftruncate that follows) before cutting the padded file back. *)
 Definition flush_errors_reported : bool := negb (String.eqb c08_plain_writer "np.save").
 Definition short_write_checked : bool := c08_direct_short_write_checked.
+Definition plain_policy : wpolicy :=
+  if String.eqb c08_plain_short_write "retry" then PRetry
+  else if String.eqb c08_plain_short_write "check" then PCheck None
+  else PIgnore.
+Definition direct_policy (size : nat) : wpolicy := if short_write_checked then PCheck (Some size) else PIgnore.
+Definition cfg_of (trunc : option nat) : wcfg :=
+  match trunc with
+  | None => {| short_policy := plain_policy; swallow_last_write_error := negb flush_errors_reported |}
+  | Some size => {| short_policy := direct_policy size; swallow_last_write_error := false |}
+  end.
 
-(* a failing write is swallowed: plain branch through np.save, and it is the last write before the rename *)
-Definition swallowed (ops : list fsop) (trunc : option nat) (k : nat) : bool :=
-  negb flush_errors_reported
-  && match trunc with None => true | Some _ => false end
-  && match nth_error ops k, nth_error ops (S k) with
-     | Some (Write _ _), Some (Rename _ _) => true
-     | _, _ => false
-     end.
-
-(* put_chunk: outcome for the caller (None = the caller never hears back: the process died) and the
-   file system left behind.  [meta_ok] = chunk_metadata accepted the chunk (shape agrees with the slices, no
-   object dtype); it is evaluated before the guarded block, so BadChunk escapes unmapped. *)
-Definition put_chunk (base : name) (writes : list bytes) (trunc : option nat) (meta_ok : bool)
-           (flt : fault) (f : fs) : option (outcome unit) * fs :=
+(* put_chunk.  [meta_ok] = chunk_metadata accepted the chunk (shape agrees with the slices, no object dtype); it
+   is evaluated before the guarded block, so BadChunk escapes unmapped.  Everything else runs inside
+   `with self._standard_errors(...)`. *)
+Definition put_chunk_cfg (c : wcfg) (base : name) (writes : list bytes) (trunc : option nat) (meta_ok : bool)
+           (evs : list event) (f : fs) : option (outcome unit) * fs :=
   if negb meta_ok then (Some (Raise K_BadChunk), f) else
-  let ops := put_ops base writes trunc in
+  match exec c evs (put_ops base writes trunc) f with
+  | (Some (Raise e), f') => (Some (Raise (standard_errors (error_map SNpy) e)), f')
+  | r => r
+  end.
+Definition put_chunk (base : name) (writes : list bytes) (trunc : option nat) (meta_ok : bool)
+           (evs : list event) (f : fs) : option (outcome unit) * fs :=
+  put_chunk_cfg (cfg_of trunc) base writes trunc meta_ok evs f.
+
+(* the single-fault scenarios of the first version of this model, as event lists: the process dies at call k
+   (inside a write: after [part] bytes), call k fails with e (a write: after a short write of [part] bytes whose
+   remainder is re-issued), write k is short ([part] bytes stored) and everything afterwards succeeds *)
+Inductive fault := NoFault | Crash (k : nat) (part : nat) | Fail (k : nat) (part : nat) (e : exn)
+                 | Short (k : nat) (part : nat).
+Definition events_of_fault (flt : fault) : list event :=
   match flt with
-  | NoFault => (Some (Ret tt), run_ops ops f)
-  | Crash k part => (None, run_ops (partial_ops ops k part) f)
-  | Fail k part e =>
-      if Nat.ltb k (List.length ops)
-      then if swallowed ops trunc k
-           then (Some (Ret tt), run_ops (partial_ops ops k part ++ skipn (S k) ops) f)
-           else (Some (Raise (standard_errors (error_map SNpy) e)), run_ops (partial_ops ops k part) f)
-      else (Some (Ret tt), run_ops ops f)
-  | Short k part =>
-      match nth_error ops k, trunc with
-      | Some (Write n bs), Some size =>
-          (* direct branch: one os.write of the padded buffer *)
-          if Nat.ltb (List.length part) size then
-            if short_write_checked
-            then (Some (Raise (standard_errors (error_map SNpy) B_OSError)),
-                  run_ops (firstn k ops ++ [Write n part]) f)
-            else (Some (Ret tt), run_ops (firstn k ops ++ [Write n part] ++ skipn (S k) ops) f)
-          else (Some (Ret tt), run_ops (firstn k ops ++ [Write n part] ++ skipn (S k) ops) f)
-      | _, _ => (Some (Ret tt), run_ops ops f)   (* buffered writers retry the remainder *)
-      end
+  | NoFault => []
+  | Crash k part => repeat EOk k ++ [EDie part]
+  | Fail k part e => repeat EOk k ++ (match part with O => [] | _ => [EShort part] end) ++ [EErr e]
+  | Short k part => repeat EOk k ++ [EShort part]
   end.
 
 (* put_chunk_noraise: Ret None = success reported, Ret (Some err) = error object returned, Raise = propagates *)
 Definition put_chunk_noraise (base : name) (writes : list bytes) (trunc : option nat) (meta_ok : bool)
-           (flt : fault) (f : fs) : option (outcome (option exn)) * fs :=
-  match put_chunk base writes trunc meta_ok flt f with
+           (evs : list event) (f : fs) : option (outcome (option exn)) * fs :=
+  match put_chunk base writes trunc meta_ok evs f with
   | (None, f') => (None, f')
   | (Some (Ret _), f') => (Some (Ret None), f')
   | (Some (Raise e), f') =>
@@ -677,10 +771,24 @@ Definition of_outcome_bytes (o : outcome bytes) : sx :=
 Definition of_fs_entry (o : option bytes) : sx := match o with None => L [] | Some b => L [of_Zs b] end.
 Definition to_fault (x : sx) : fault :=
   match x with
-  | L [I 1; k; part] => Crash (to_nat k) (to_Zs part)
-  | L [I 2; k; part; e] => Fail (to_nat k) (to_Zs part) (to_exn e)
-  | L [I 3; k; part] => Short (to_nat k) (to_Zs part)
+  | L [I 1; k; part] => Crash (to_nat k) (List.length (to_Zs part))
+  | L [I 2; k; part; e] => Fail (to_nat k) (List.length (to_Zs part)) (to_exn e)
+  | L [I 3; k; part] => Short (to_nat k) (List.length (to_Zs part))
   | _ => NoFault
+  end.
+Definition to_event (x : sx) : event :=
+  match x with
+  | L [I 1; n] => EDie (to_nat n)
+  | L [I 2; e] => EErr (to_exn e)
+  | L [I 3; n] => EShort (to_nat n)
+  | _ => EOk
+  end.
+Definition of_policy (p : wpolicy) : sx :=
+  match p with
+  | PRetry => L [I 0]
+  | PIgnore => L [I 1]
+  | PCheck None => L [I 2]
+  | PCheck (Some m) => L [I 2; of_nat m]
   end.
 Definition of_fsop (op : fsop) : sx :=
   match op with
@@ -688,6 +796,13 @@ Definition of_fsop (op : fsop) : sx :=
   | Write n bs => L [I 1; of_Zs n; I (Z.of_nat (List.length bs))]
   | Ftruncate n len => L [I 2; of_Zs n; of_nat len]
   | Rename a b => L [I 3; of_Zs a; of_Zs b]
+  end.
+Definition of_report (rep : option (outcome (option exn))) : sx :=
+  match rep with
+  | None => L []
+  | Some (Ret None) => L [I 0]
+  | Some (Ret (Some e)) => L [I 1; of_exn e]
+  | Some (Raise e) => L [I 2; of_exn e]
   end.
 Definition to_optnat (x : sx) : option nat := match x with L [I z] => Some (Z.to_nat z) | _ => None end.
 
@@ -701,6 +816,9 @@ Definition to_optnat (x : sx) : option nat := match x with L [I z] => Some (Z.to
    (8 base writes trunc?)   -> put_ops as (kind name arg) ...
    (9 base writes trunc? meta_ok fault old?) -> put_chunk_noraise on a file system holding [old] under the final name:
                                (report, final entry, tmp entry)  report: () died | (0) None | (1 e) returned | (2 e) raised
+   (11 base writes trunc? meta_ok events old?) -> the same for a list of environment answers
+                               event: (0) ok | (1 n) die | (2 e) error | (3 n) short write of n bytes
+                               -> (report, final entry, tmp entry, calls issued ((kind arg) ...), short-write policy)
    (10 bytes want)          -> for every k in 0..|bytes|: the three getters of the NPY store and of the S3 store on
                                the first k bytes *)
 Definition wire_81 (x : sx) : sx :=
@@ -730,14 +848,18 @@ Definition wire_81 (x : sx) : sx :=
   | L [I 9; base; writes; tr; mok; flt; old] =>
       let b := to_Zs base in
       let f0 : fs := match old with L [o] => [(final_name b, to_Zs o)] | _ => [] end in
-      let (rep, f') := put_chunk_noraise b (map to_Zs (to_list writes)) (to_optnat tr) (to_bool mok) (to_fault flt) f0 in
-      L [match rep with
-         | None => L []
-         | Some (Ret None) => L [I 0]
-         | Some (Ret (Some e)) => L [I 1; of_exn e]
-         | Some (Raise e) => L [I 2; of_exn e]
-         end;
-         of_fs_entry (lookup (final_name b) f'); of_fs_entry (lookup (tmp_name b) f')]
+      let (rep, f') := put_chunk_noraise b (map to_Zs (to_list writes)) (to_optnat tr) (to_bool mok)
+                                         (events_of_fault (to_fault flt)) f0 in
+      L [of_report rep; of_fs_entry (lookup (final_name b) f'); of_fs_entry (lookup (tmp_name b) f')]
+  | L [I 11; base; writes; tr; mok; evs; old] =>
+      let b := to_Zs base in
+      let ws := map to_Zs (to_list writes) in
+      let evl := map to_event (to_list evs) in
+      let f0 : fs := match old with L [o] => [(final_name b, to_Zs o)] | _ => [] end in
+      let (rep, f') := put_chunk_noraise b ws (to_optnat tr) (to_bool mok) evl f0 in
+      L [of_report rep; of_fs_entry (lookup (final_name b) f'); of_fs_entry (lookup (tmp_name b) f');
+         L (map (fun kz => L [I (fst kz); I (snd kz)]) (exec_calls (cfg_of (to_optnat tr)) evl (put_ops b ws (to_optnat tr))));
+         of_policy (short_policy (cfg_of (to_optnat tr)))]
   | L [I 10; b; want] =>
       let bs := to_Zs b in let w := to_hdr want in
       let three st lo := L [of_outcome_cv (get_chunk st lo); of_outcome_cv (get_chunk_or_default st lo);
